@@ -125,6 +125,18 @@ def run_case(c, rng):
             check_failure_report(c, tr, True, sample, label)
             check_shape(c, wn, res, sample, label, failed=True)
             compare_prefix(c, res, R0, label, wit, full=False)
+            # "the run stops there": nothing at or after the instant of the failed solve is reported, and no further step is solved
+            inj = [sv for sv in tr.solves if sv['injected']]
+            if inj:
+                t_fail = inj[0]['t']
+                late = [t_ for t_ in res.node['head'].index if t_ >= t_fail]
+                if late:
+                    c.violate('failed_step_reported', '%s: the solve at t = %s s failed but times %s are reported' % (label, t_fail, late[:4]), **wit)
+                after = [sv for sv in tr.solves if sv['k'] > max(bad)]
+                if after:
+                    c.violate('run_continued_after_failure', '%s: %d more solves were made after the failed one (at t = %s)' % (
+                        label, len(after), [sv['t'] for sv in after[:3]]), **wit)
+                c.count('stop_at_failure_checked')
     if N >= 3 and any(k > 0 for k in ks):
         c.nontrivial = True
     # organic failures: tight iteration limits / trial limits
